@@ -12,7 +12,8 @@ TECHNIQUE = ('table/constant agreement across the six Plex modules; path-sensiti
              'FastMachine.add_transitions, the input_state dispatch, the token / end-of-file / error decision of scan_a_token, the RE constructors\' nullable/match_nl and CodeRange; '
              'one-letter-alphabet language computation for the Rep1/Opt/Rep construction schemata; '
              'finite-domain evaluation by the checker-owned Python evaluator (sC50.PyEval: the Plex classes are interpreted from their AST, nothing is imported or run) of the '
-             'single-character constructors (language read off the NFA they build) and of TransitionMap over every order type of range end points; linear-form symbolic execution of '
+             'single-character constructors (language read off the NFA they build), of TransitionMap over every order type of range end points and of the epsilon-closure functions of DFA.py over every '
+             'small epsilon graph x iteration order x request order; linear-form symbolic execution of '
              'the buffer refill; def-use of the initial states')
 DECIDES = (
     'SENT: maxint is one integer in Regexps/Machines/Transitions, above every character code and inside its .pxd C type; LOWEST_PRIORITY (also as seen by DFA) '
@@ -35,7 +36,10 @@ DECIDES = (
     'ATTR: Seq/Alt/Rep1/SwitchCase constructors never compute nullable/match_nl false where the definition gives true; CodeRange routes exactly the newline code '
     'through RawNewline.  '
     'DFA: only epsilon-closed sets become DFA states; epsilon moves are not copied as transitions while special and character events are; link_to and '
-    'get_epsilon use the same falsy key; the closure helper is reflexive and recursive.  '
+    'get_epsilon use the same falsy key.  '
+    'EPS: the closure functions nfa_to_dfa calls (per state and per set of states) return exactly the reflexive-transitive closure of the epsilon moves on every labelled epsilon graph on '
+    '3 states (all cycles, diamonds, chains; successor sets visited in every order) for every order of requests - the closures are memoised on the nodes - with every request repeated at the '
+    'end, and on every graph on 4 states with at most 4 moves that is reachable from its first state; non-termination and exceptions count as failures.  '
     'INPUT: from the state set by Scanner.__init__, the input_state dispatch feeds BOL x EOL \\n BOL y EOL EOF \'\' \'\' for the text "x\\ny"<eof>.  '
     'EOF: the decision table of Scanner.scan_a_token over (machine returned an action?) x (scan advanced past start_pos?) x (current symbol in EOF, EOL, BOL, \'\', None, '
     'ordinary character, newline): an action is always returned as (text, action); without an action a clean end of file (_, None) is reported when nothing was consumed and the '
@@ -50,7 +54,8 @@ DECIDES = (
     'StateMap.make_key is injective and order independent on all subsets of three states.  '
     'BUF: after a refill kept text and new data are contiguous, buf_start_pos (local and on self) is the position of buffer[0], buf_len its length, the index the offset of the next '
     'unread position, the window still starts at or before start_pos, each read advances the position once; scan_a_token cuts the text with both bounds rebased by buf_start_pos.')
-NOT_DECIDED = ('language equivalence of the generated DFA with the regular expressions for all lexicons and inputs; Any(s)/AnyBut(s) for strings that REPEAT a character '
+NOT_DECIDED = ('epsilon closures on graphs with more than 4 states or more than 4 moves on 4 states (the closure functions are uniform in the graph: they see it only through get_epsilon, set '
+               'membership and the memo slot, but the transfer is an argument, not a proof); language equivalence of the generated DFA with the regular expressions for all lexicons and inputs; Any(s)/AnyBut(s) for strings that REPEAT a character '
                '(rule C50-CHARSET-DUP is written and reports the unmodified tree: FINDING_1, pending); TransitionMap beyond three ranges; '
                'that run_machine_inlined leaves cur_pos advanced when it blocks without a backup (C50-EOF takes this from the scan loop as decided by C50-BACKUP/C50-INPUT); '
                'cur_pos/cur_line/cur_line_start bookkeeping of the scan loop (only their save/restore/write-back is decided);  over-statement of nullable/match_nl (harmless: it only adds BOL edges that can never fire) is '
@@ -120,6 +125,7 @@ MUTATIONS = [
     (P + 'Regexps.py', 'Seq.build_machine: (re.nullable and match_bol) or re.match_nl; Seq.__init__ nullable computed with if/False', None),
     (P + 'Scanners.py', 'input state 2 renumbered to 7 consistently; save and init backup tuples rotated; `not (b_action is None)`', None),
 ]
+# Sixth round (seed C50h, mechanism: memoised epsilon closure): eps-* breaking edits and p-eps-* rewrites under /verif/mutants/C50/, all decided by C50-EPS.
 # Fourth round: 25 breaking edits and 8 behaviour-preserving rewrites are kept as replayable patches under /verif/mutants/C50/<name>/ (see each meta.json).
 
 
@@ -127,5 +133,5 @@ def run(ctx):
     px = pC50.Plex(ctx)
     return [pC50.rule_sentinel(px), pC50.rule_symbols(px), pC50.rule_priority(px), pC50.rule_backup(px), pC50.rule_split(px), pC50.rule_inf(px),
             pC50.rule_nfa(px), pC50.rule_attrs(px), pC50.rule_closure(px), pC50.rule_protocol(px), sC50.rule_eof(px),
-            sC50.rule_charset(px), sC50.rule_tmap(px), sC50.rule_route(px), sC50.rule_buffer(px), sC50.rule_charset_duplicates(px)]
+            sC50.rule_charset(px), sC50.rule_tmap(px), sC50.rule_route(px), sC50.rule_buffer(px), sC50.rule_charset_duplicates(px), sC50.rule_epsclosure(px)]
     # sC50.rule_charset_duplicates(px): armed after the repair 19ab7cd1b (FINDING_1: Any("aa") also matches "b")
